@@ -212,6 +212,34 @@ theorem run_last_call {α : Type} [Scalar α] (pinv : Mat α p p → Mat α p p)
     runUKF pinv msqrt (cs ++ [(kk, s)]) pr = ukf pinv msqrt kk s (runUKF pinv msqrt cs pr) := by
   simp [runEKF, runUKF, List.foldl_append]
 
+/-- **Each of `Q`, `R` is resolved on its own.** A covariance passed for the call is the one used, whatever the object
+stores for it and whether or not the *other* covariance is passed or stored; a covariance not passed is the stored one.
+(The seeded change "if Q is None or R is None: Q, R = self.Q, self.R" violates the first two equations.) -/
+theorem call_resolution_independent {α : Type} [Scalar α] (pinv : Mat α p p → Mat α p p) (msqrt : Mat α n n → Mat α n n)
+    (kk : α) (sys : Sys α n m p) (u : Vec α m) (y : Vec α p) (Q Q' : Mat α n n) (R R' : Mat α p p)
+    (stQ : Option (Mat α n n)) (stR : Option (Mat α p p)) (pr : Post α n) :
+    -- exactly one of the two is passed, the other is taken from the object
+    ekfCall pinv stQ (some R') sys u y (some Q) none pr = some (ekf pinv ⟨sys, u, y, Q, R'⟩ pr) ∧
+    ekfCall pinv (some Q') stR sys u y none (some R) pr = some (ekf pinv ⟨sys, u, y, Q', R⟩ pr) ∧
+    ukfCall pinv msqrt kk stQ (some R') sys u y (some Q) none pr = some (ukf pinv msqrt kk ⟨sys, u, y, Q, R'⟩ pr) ∧
+    ukfCall pinv msqrt kk (some Q') stR sys u y none (some R) pr = some (ukf pinv msqrt kk ⟨sys, u, y, Q', R⟩ pr) ∧
+    -- both passed: the stored values are irrelevant; none passed: the stored values are used
+    ekfCall pinv stQ stR sys u y (some Q) (some R) pr = some (ekf pinv ⟨sys, u, y, Q, R⟩ pr) ∧
+    ekfCall pinv (some Q') (some R') sys u y none none pr = some (ekf pinv ⟨sys, u, y, Q', R'⟩ pr) := by
+  simp [ekfCall, ukfCall, resolve]
+
+/-- **A failing call is no call** (atomicity of error paths): a history with calls that raised, after which the caller
+continued with the estimate it had, equals the history without those calls. -/
+theorem failed_call_is_no_call {α : Type} [Scalar α] (pinv : Mat α p p → Mat α p p)
+    (calls : List (Option (Step α n m p))) (pr : Post α n) :
+    runEKFopt pinv calls pr = runEKF pinv (calls.filterMap id) pr := by
+  induction calls generalizing pr with
+  | nil => rfl
+  | cons c rest ih =>
+    cases c with
+    | none => simpa [runEKFopt, runEKF] using ih pr
+    | some s => simpa [runEKFopt, runEKF] using ih (ekf pinv s pr)
+
 /-- **UKF covariance is valid whenever the centre weight is non-negative** (`k ≥ 0`, `n + k > 0`), for an
 arbitrary non-linear system: the returned covariance is symmetric positive semidefinite. Nothing is assumed
 about the prior covariance or the first square root. -/
